@@ -15,6 +15,10 @@ typedef struct { int ncols; int opt[4]; int ptype[4]; int tlen[4]; int nrg; int6
 
 static carquet_reader_t* open_mode(int mode, const uint8_t* img, size_t n, int verify, carquet_error_t* err) {
     carquet_reader_options_t o; carquet_reader_options_init(&o); o.verify_checksums = verify != 0;
+    /* modes 3 and 4: options omitted (NULL): the documented defaults apply, verify_checksums = true */
+    if (mode == 3 && verify) return carquet_reader_open_buffer(img, n, NULL, err);
+    if (mode == 4 && verify) { FILE* f = fopen(g_path, "wb"); if (!f || fwrite(img, 1, n, f) != n) mc_harness_error("cannot write %s", g_path); fclose(f); return carquet_reader_open(g_path, NULL, err); }
+    if (mode >= 3) mode = mode == 3 ? 0 : 1;
     if (mode == 0) return carquet_reader_open_buffer(img, n, &o, err);
     FILE* f = fopen(g_path, "wb"); if (!f || fwrite(img, 1, n, f) != n) mc_harness_error("cannot write %s", g_path); fclose(f);
     o.use_mmap = mode == 2; return carquet_reader_open(g_path, &o, err);
@@ -77,7 +81,7 @@ static void damage_all(const uint8_t* img, size_t n, const shape_t* sh, const ch
     /* the writer checksums every page it writes (the default options): a page without a CRC cannot have its damage detected */
     if (strstr(fdesc, "dmg:carquet")) for (int p = 0; p < rf.npages; p++) if (!rf.pages[p].has_crc) { mc_fail(rf.pages[p].nlevels > 0 ? "writer.page-without-crc" : "writer.page-without-crc.empty-page", "%s: page %d (%lld level entries, body %zu bytes) has no crc field", fdesc, p, (long long)rf.pages[p].nlevels, rf.pages[p].body_len); break; }
     /* undamaged: never a checksum error, in every mode */
-    for (int mode = 0; mode < 3; mode++) {
+    for (int mode = 0; mode < 5; mode++) {
         carquet_error_t err = CARQUET_ERROR_INIT; carquet_reader_t* rd = open_mode(mode, img, n, 1, &err); if (!rd) { mc_fail("undamaged.open-failed", "%s mode=%d code %d", fdesc, mode, err.code); continue; }
         for (int g = 0; g < sh->nrg; g++) for (int l = 0; l < sh->ncols; l++) { bool ee, of; int64_t r = drain_column(rd, g, l, sh->ptype[l], sh->tlen[l], &ee, &of); if (of || ee || r != sh->rg_rows[g]) mc_fail("undamaged.read-error", "%s mode=%d rg %d col %d: rows %lld of %lld err %d", fdesc, mode, g, l, (long long)r, (long long)sh->rg_rows[g], ee); }
         bool ee; int64_t rb; drain_batches(rd, &ee, &rb); if (ee) mc_fail("undamaged.batch-error", "%s mode=%d", fdesc, mode);
@@ -89,7 +93,7 @@ static void damage_all(const uint8_t* img, size_t n, const shape_t* sh, const ch
         pages_hit++;
         size_t nbits = pg->body_len * 8;
         for (size_t b = 0; b < nbits; b++) {                 /* every single-bit flip, all three modes */
-            for (int mode = 0; mode < 3; mode++) { memcpy(x, img, n); x[pg->body_off + (b >> 3)] ^= (uint8_t)(1u << (b & 7)); snprintf(what, sizeof what, "%s;page#%d(rg%d col%d type%d body %zu bytes);bitflip@%zu", fdesc, p, pg->rg, pg->leaf, pg->page_type, pg->body_len, b); mc_desc("%s", what); judge(x, n, &rf, pg, sh, mode, what); }
+            for (int mode = 0; mode < 5; mode++) { memcpy(x, img, n); x[pg->body_off + (b >> 3)] ^= (uint8_t)(1u << (b & 7)); snprintf(what, sizeof what, "%s;page#%d(rg%d col%d type%d body %zu bytes);bitflip@%zu", fdesc, p, pg->rg, pg->leaf, pg->page_type, pg->body_len, b); mc_desc("%s", what); judge(x, n, &rf, pg, sh, mode, what); }
         }
         for (size_t pos = 0; pos < pg->body_len; pos++)       /* every byte XOR 1..255 at every position */
             for (int v = 1; v < 256; v++) {
